@@ -86,13 +86,13 @@ func parseOp(s string) HOp {
 }
 
 var stopMessages = map[string]string{
-	"":     "",
-	"m1":   "plain text",
-	"m2":   `<b>bold</b> & "q" 'a'`,
-	"m3":   `{{.Message}}{{printf "%s" .}}`,
-	"m4":   `</p><script>x</script>`,
-	"m5":   strings.Repeat("long message ", 24),
-	"m6":   "größe ☃ 日本",
+	"":   "",
+	"m1": "plain text",
+	"m2": `<b>bold</b> & "q" 'a'`,
+	"m3": `{{.Message}}{{printf "%s" .}}`,
+	"m4": `</p><script>x</script>`,
+	"m5": strings.Repeat("long message ", 24),
+	"m6": "größe ☃ 日本",
 }
 
 // ---------------------------------------------------------------------------
